@@ -284,7 +284,8 @@ def run_check(prop, P, tier, seed):
     if results is None:
         log("engine failure")
         return 2
-    known = [k for k in load_known() if k.get("property") == prop]
+    # a finding is keyed by harness + label: the same harness may serve several properties
+    known = load_known()
     inconclusive = []
     viol_lines = []
     known_lines = []
